@@ -250,7 +250,7 @@ def write_entropy_image(bw, rng, width, height, style, green_max=255, red_syms=N
     dlen = max(len(c) for c in D.values()) if len(D) > 1 else 0
     readahead = glen + max(arb, glen + 36 + dlen)
     idx, npx_tokens, max_iter_bits = 0, 0, 0
-    w_back = {"extrabits": 0.85}.get(style, rng.choice([0.0, 0.1, 0.4, 0.8]))
+    w_back = {"extrabits": 0.85, "arbdeep": 0.02}.get(style, rng.choice([0.0, 0.1, 0.4, 0.8]))
     while idx < n:
         start = len(bw.bits)
         kind = "lit"
@@ -348,6 +348,8 @@ def build_lossless(rng, style="plain", pixel_budget=3000):
                 # block order such that the sub-image stays within the pixel budget
                 opts = [b for b in range(8) if ceil_div(width, 1 << (b + 2)) * ceil_div(H, 1 << (b + 2)) <= pixel_budget]
                 b = rng.choice(opts) if opts else 7
+                if style == "arbdeep" and opts:
+                    b = min(opts)                     # the largest sub-image within the budget: long literal runs
                 bw.put(b, 3)
                 bs = 1 << (b + 2)
                 facts["images"].append(write_entropy_image(bw, rng, ceil_div(width, bs), ceil_div(H, bs), style,
